@@ -456,11 +456,7 @@ func check(c Case) *Failure {
 				w = x
 			}
 			if got.Z != w {
-				site := g + ":int"
-				if g == "ABS" && c.Cold != nil && ((c.Cold.Z < 0 && got.Z == wrapTo(c.TC, -x)) || (c.Cold.Z >= 0 && got.Z == x)) {
-					site = "ABS:receiver-sign" // exactly the behaviour of `if c.Sign() == -1 { c.NEG(a) } else { c.SET(a) }`
-				}
-				return fail(site, "integer result differs from |x| / -x in wrap-around arithmetic", fmt.Sprint(w))
+				return fail(g+":int", "integer result differs from |x| / -x in wrap-around arithmetic", fmt.Sprint(w))
 			}
 			return nil
 		}
@@ -471,10 +467,10 @@ func check(c Case) *Failure {
 		want, _ := refUn(g, x)
 		if !agrees(c.TC, got, want, 0) {
 			site := g + ":value"
-			if g == "ABS" && c.Cold != nil && ((c.Cold.fl() < 0 && got.fl() == -x) || (!(c.Cold.fl() < 0) && got.fl() == x)) {
-				site = "ABS:receiver-sign"
-			} else if g == "Abs" && math.IsNaN(x) && got.fl() == 0 {
+			if g == "Abs" && math.IsNaN(x) && got.fl() == 0 {
 				site = "Abs:NaN" // Sign() of NaN is 0, so Abs resets the receiver
+			} else if g == "ABS" && math.IsNaN(x) && got.fl() == 0 {
+				site = "ABS:NaN" // the concrete twin has the same three-way switch since fix 2fc8894
 			}
 			return fail(site, "result differs from the named function", fstr(want))
 		}
